@@ -121,6 +121,7 @@ func fileOracle(prop string, d progen.FileParams, res *Result) []string {
 	var keptPaths []string
 	if res.TopOuts != nil && res.TopOuts.K == progen.VObj {
 		keptPaths = pathsIn(res.TopOuts.O["kept"], nil)
+		keptPaths = pathsIn(res.TopOuts.O["kept2"], keptPaths)
 	}
 	var retained []string
 	forkDirs := producerForkDirs(res, d)
@@ -430,9 +431,9 @@ func FileCheck(prop string) {
 		fullSched[d.String()] = true
 	}
 	if !ev.IsWorker() {
-		r.Rule = fmt.Sprintf("every vector of the file-flow family with at most %d of 10 shape dimensions off their base value (which producer output carries the file: "+
+		r.Rule = fmt.Sprintf("every vector of the file-flow family with at most %d of 11 shape dimensions off their base value (which producer output carries the file: "+
 			"filetype/file/array/typed map/struct/struct array/map of structs/string/untyped map/path; projection through the struct field; split producer; producer or consumer inside a sub-pipeline; "+
-			"mapped consumer; mapped producer; a second late consumer; retain at stage or pipeline; file returned by the top-level pipeline) x all volatile annotations {call volatile, none, stage strict, stage false} "+
+			"mapped consumer; mapped producer; a second late consumer; retain at stage or pipeline; file returned by the top-level pipeline; a second file output of the same producer bound to the same consumer and returned as well) x all volatile annotations {call volatile, none, stage strict, stage false} "+
 			"x all VDR modes {rolling, post, strict}; each program runs on the real runtime with model jobs that write real files and verify every file named in their arguments; "+
 			"schedules: default for all; for the vectors with at most %d dimensions off base additionally each job held until quiescence, each job start-only, each VDR goroutine (doJoin/doComplete) deferred by 0, 1 or 3 loop iterations. "+
 			"In addition, for %d shapes (file / file array x plain / split producer x rolling / strict x late second consumer x top-level output) mrp is killed at EVERY file-system effect of the run (VDR's own removals and reports included), the stale lock is removed and the pipestance restarted: consumers must still find their files, final outputs and retained files must be intact (C04), and what may be reclaimed is reclaimed with every path listed in a kill report gone (C14; byte accounting across a kill is not decided). "+
